@@ -258,6 +258,7 @@ type c09envSpec struct {
 	Keyring bool   `json:"keyring,omitempty"`
 	Merge   bool   `json:"merge,omitempty"`
 	Open    string `json:"open,omitempty"` // "", query, query-ack, conflict, keys-list, keys-install
+	Buf     int    `json:"buffers,omitempty"` // EventBuffer = QueryBuffer = Buf (0: the default 512)
 }
 
 type c09env struct {
@@ -303,6 +304,9 @@ func c09setup(spec c09envSpec) (*c09env, error) {
 			c.MemberlistConfig.GossipVerifyOutgoing = false
 			c.MemberlistConfig.GossipVerifyIncoming = false
 		})
+	}
+	if spec.Buf > 0 {
+		opts = append(opts, func(c *serf.Config) { c.EventBuffer, c.QueryBuffer = spec.Buf, spec.Buf })
 	}
 	if spec.Merge {
 		opts = append(opts, func(c *serf.Config) { c.Merge = c09acceptMerge{} })
@@ -652,6 +656,42 @@ func init() {
 		c09reg(&c09entry{name: fmt.Sprintf("MergeRemoteState(join=%v)", join), ignoreOracle: true, wellformed: c09ppWellformed, class: c09class(c09ppWellformed, "push/pull state"),
 			deliver: func(e *c09env, i int, in []byte) { e.n.Delegate().MergeRemoteState(in, join) }})
 	}
+	// nodes whose event and query rings are smaller than what the network sends
+	for _, buf := range []int{1, 2} {
+		tag := fmt.Sprintf("[buffers=%d]", buf)
+		c09reg(&c09entry{name: "NotifyMsg" + tag, env: c09envSpec{Buf: buf}, ignoreOracle: true, wellformed: c09msgWellformed, class: c09msgClass,
+			deliver: func(e *c09env, i int, in []byte) { e.n.Delegate().NotifyMsg(in) }})
+		for _, join := range []bool{false, true} {
+			join := join
+			c09reg(&c09entry{name: fmt.Sprintf("MergeRemoteState(join=%v)%s", join, tag), env: c09envSpec{Buf: buf}, ignoreOracle: true, wellformed: c09ppWellformed,
+				class:   c09class(c09ppWellformed, "push/pull state"),
+				deliver: func(e *c09env, i int, in []byte) { e.n.Delegate().MergeRemoteState(in, join) }})
+		}
+		// input = a sequence of gossip messages, each prefixed by its 2-byte length, delivered one after the other
+		c09reg(&c09entry{name: "NotifyMsg sequence" + tag, env: c09envSpec{Buf: buf}, batch: 1,
+			wellformed: func(in []byte) bool {
+				ms, ok := c09splitSeq(in)
+				for _, m := range ms {
+					ok = ok && c09msgWellformed(m)
+				}
+				return ok && len(ms) > 0
+			},
+			class: func(in []byte) string {
+				ms, _ := c09splitSeq(in)
+				var cl []string
+				for _, m := range ms {
+					cl = append(cl, c09msgClass(m))
+				}
+				return "sequence of " + strings.Join(cl, ", ")
+			},
+			deliver: func(e *c09env, i int, in []byte) {
+				ms, _ := c09splitSeq(in)
+				for _, m := range ms {
+					e.n.Delegate().NotifyMsg(m)
+					vsched.Quiesce()
+				}
+			}})
+	}
 	c09reg(&c09entry{name: "NotifyPingComplete", ignoreOracle: true, wellformed: c09pingWellformed, class: c09class(c09pingWellformed, "ping payload"),
 		deliver: func(e *c09env, i int, in []byte) {
 			e.n.Ping().NotifyPingComplete(e.n.MLNode("b", 1, nil), c09rtt, in)
@@ -728,7 +768,7 @@ func init() {
 	vc.Register(&vc.Check{
 		ID:    "C09",
 		Level: "exploration",
-		Rule: "cases: every (entry point, byte string) of a bounded adversarial space handed to a real Serf node ('a', knows an alive member 'b' and a failed member 'c'; with/without keyring, with/without merge delegate, with an open query where replies are the input) through the memberlist-facing interface: Delegate.NotifyMsg, Delegate.MergeRemoteState(join=false/true), PingDelegate.NotifyPingComplete(+AckPayload), EventDelegate.NotifyJoin/NotifyUpdate and Merge/Alive delegates with arbitrary Meta, a query's single filter, the payload of each internal query (_serf_ping/conflict/install-key/use-key/remove-key/list-keys/unknown, with and without keyring), the payload of a reply into an open conflict query and an open ListKeys/InstallKey query. Spaces: (i) all byte strings of length <=2 at the top-level entry points (NotifyMsg, MergeRemoteState x2, NotifyPingComplete, NotifyJoin metadata); at the nested ones (filter, internal-query payloads, replies, the other three metadata paths) the quick tier takes length <=1 plus length 2 behind each of 12 type/version/msgpack-header bytes and the thorough tier all of length <=2 (payload-blind internal queries ping/list-keys/unknown: length <=1); thorough adds length 3 for NotifyMsg with first byte = each of the 10 message types; these sweeps deliver 256 inputs one after the other to the same node (a batch with any failure is re-run input by input), all other cases get a fresh node each; (ii) hand-encoded msgpack maps: full products of per-field domains {absent, nil, 0/empty, 1/1-element, max, negative, wrong msgpack type, long string, length header without body} for leave, join, user event, query response (against no/an open query), relay envelope (header fields x inner reply kinds), push/pull, conflict response, key response, key request, coordinate; for queries the products filters x flags x relay factor x address x name, name x payload x keyring x flags x relay factor, and the scalar fields (thorough) resp. one-field sweeps (quick); (iii) every truncation and every single-byte substitution by {00,01,7f,80,90,a0,c0,c3,cf,db,df,ff} of a valid seed encoding of every kind. Oracle per case: no controlled thread (delivering thread, serf's handler goroutines, timers) panics, the delivering call returns, an input that does not decode as its kind changes nothing (private state, coordinate, keyring, events, outbox, transport) resp. a key request that does not decode is answered with Result=false, and afterwards Members() lists the node, the node is alive and a fresh user event reaches the event channel. non-trivial = the input decodes as its kind, i.e. gets past the first rejection and reaches a handler",
+		Rule: "cases: every (entry point, byte string) of a bounded adversarial space handed to a real Serf node ('a', knows an alive member 'b' and a failed member 'c'; with/without keyring, with/without merge delegate, with an open query where replies are the input) through the memberlist-facing interface: Delegate.NotifyMsg, Delegate.MergeRemoteState(join=false/true), PingDelegate.NotifyPingComplete(+AckPayload), EventDelegate.NotifyJoin/NotifyUpdate and Merge/Alive delegates with arbitrary Meta, a query's single filter, the payload of each internal query (_serf_ping/conflict/install-key/use-key/remove-key/list-keys/unknown, with and without keyring), the payload of a reply into an open conflict query and an open ListKeys/InstallKey query. Spaces: (i) all byte strings of length <=2 at the top-level entry points (NotifyMsg, MergeRemoteState x2, NotifyPingComplete, NotifyJoin metadata); at the nested ones (filter, internal-query payloads, replies, the other three metadata paths) the quick tier takes length <=1 plus length 2 behind each of 12 type/version/msgpack-header bytes and the thorough tier all of length <=2 (payload-blind internal queries ping/list-keys/unknown: length <=1); thorough adds length 3 for NotifyMsg with first byte = each of the 10 message types; these sweeps deliver 256 inputs one after the other to the same node (a batch with any failure is re-run input by input), all other cases get a fresh node each; (ii) hand-encoded msgpack maps: full products of per-field domains {absent, nil, 0/empty, 1/1-element, max, negative, wrong msgpack type, long string, length header without body} for leave, join, user event, query response (against no/an open query), relay envelope (header fields x inner reply kinds), push/pull, conflict response, key response, key request, coordinate; for queries the products filters x flags x relay factor x address x name, name x payload x keyring x flags x relay factor, and the scalar fields (thorough) resp. one-field sweeps (quick); (ii') inputs larger than the receiver's own structures: nodes with EventBuffer=QueryBuffer=1 and 2 (and the default 512) receive every push/pull Events list of length 0..5 over {nil, slot LTime 1, 2, 3} (nil and non-nil at every position, times colliding modulo the ring), lists of 511..1025 entries with real slots at and beyond index 512, every sequence of <=3 gossip messages over 7 user events and 6 queries whose Lamport times {0,1,2,3,5,max} collide modulo the ring, and the user-event / query / push/pull field products; (iii) every truncation and every single-byte substitution by {00,01,7f,80,90,a0,c0,c3,cf,db,df,ff} of a valid seed encoding of every kind. Oracle per case: no controlled thread (delivering thread, serf's handler goroutines, timers) panics, the delivering call returns, an input that does not decode as its kind changes nothing (private state, coordinate, keyring, events, outbox, transport) resp. a key request that does not decode is answered with Result=false, and afterwards Members() lists the node, the node is alive and a fresh user event reaches the event channel. non-trivial = the input decodes as its kind, i.e. gets past the first rejection and reaches a handler",
 		Assumptions: []string{
 			"one node over an inert real memberlist; inputs are delivered serially, each followed by running all of serf's threads to quiescence",
 			"'malformed' is taken as: not decodable by the msgpack decoder into the structure of its kind (or unknown type byte / wrong version byte); only for those the 'is ignored' half is asserted",
@@ -1073,7 +1113,30 @@ func c09run(ctx *vc.Ctx) {
 	}
 	c09rawBytes(r)
 	c09fields(r)
+	c09rings(r)
 	c09seeds(r)
+}
+
+func c09splitSeq(in []byte) ([][]byte, bool) {
+	var out [][]byte
+	for len(in) >= 2 {
+		n := int(in[0])<<8 | int(in[1])
+		if len(in) < 2+n {
+			return out, false
+		}
+		out = append(out, in[2:2+n])
+		in = in[2+n:]
+	}
+	return out, len(in) == 0
+}
+
+func c09joinSeq(ms ...[]byte) []byte {
+	var out []byte
+	for _, m := range ms {
+		out = append(out, byte(len(m)>>8), byte(len(m)))
+		out = append(out, m...)
+	}
+	return out
 }
 
 // c09selftest validates the hand-written msgpack writer against serf's own decoder.
@@ -1117,7 +1180,7 @@ func c09rawBytes(r *c09runner) {
 	all1 := c09allBytes(1)
 	for _, name := range c09entryNames() {
 		ent := c09entries[name]
-		if strings.HasPrefix(name, "NotifyMsg[") {
+		if strings.HasPrefix(name, "NotifyMsg[") || strings.HasPrefix(name, "NotifyMsg sequence") || strings.Contains(name, "[buffers=") {
 			continue // a string of <=3 bytes cannot address an open query or a key; covered by the plain node
 		}
 		inputs := all2
@@ -1443,7 +1506,7 @@ func c09fields(r *c09runner) {
 			lt, elt, qlt = lt[:1], elt[:2], qlt[:1]
 		}
 		fs := []c09field{{"LTime", lt}, {"StatusLTimes", status}, {"LeftMembers", left}, {"EventLTime", elt}, {"Events", events}, {"QueryLTime", qlt}}
-		for _, entry := range []string{"MergeRemoteState(join=false)", "MergeRemoteState(join=true)"} {
+		for _, entry := range []string{"MergeRemoteState(join=false)", "MergeRemoteState(join=true)", "MergeRemoteState(join=false)[buffers=1]"} {
 			r.cases("fields push/pull @ "+entry, entry, c09build(T(serf.VMsgPushPull), fs, false, nil, "push/pull"))
 			if !th {
 				full := []c09field{{"LTime", c09uintD()}, {"StatusLTimes", status}, {"LeftMembers", left}, {"EventLTime", c09uintD()}, {"Events", events}, {"QueryLTime", c09uintD()}}
@@ -1537,6 +1600,129 @@ func c09fields(r *c09runner) {
 		for _, entry := range []string{"NotifyJoin(Meta)", "NotifyUpdate(Meta)", "NotifyMerge(Meta)", "NotifyAlive(Meta)"} {
 			r.cases("fields member metadata @ "+entry, entry, cs)
 		}
+	}
+}
+
+// ---------------------------------------------------------------------------
+// (ii') inputs that are larger than the receiver's own structures: the event and
+// query rings (EventBuffer/QueryBuffer 1 and 2, and the default 512) against
+// push/pull event lists of every shape up to length 5 (and just beyond 512), and
+// message sequences whose Lamport times collide modulo the ring
+
+func c09rings(r *c09runner) {
+	th := r.ctx.Thorough()
+	T := func(t byte) []byte { return []byte{t} }
+	ev := func(name string) []byte { return c09map(c09kv{"Name", c09str(name)}, c09kv{"Payload", c09str("p")}) }
+	ue := func(lt uint64, evs ...[]byte) []byte { return c09map(c09kv{"LTime", c09uint(lt)}, c09kv{"Events", c09arr(evs...)}) }
+	pp := func(elt uint64, events []byte) []byte {
+		return c09cat(T(serf.VMsgPushPull), c09map(c09kv{"LTime", c09uint(5)}, c09kv{"StatusLTimes", c09map(c09kv{"b", c09uint(1)})}, c09kv{"LeftMembers", c09arr()},
+			c09kv{"EventLTime", c09uint(elt)}, c09kv{"Events", events}, c09kv{"QueryLTime", c09uint(5)}))
+	}
+	// every Events list of length 0..5 over {nil, slot with LTime 1, 2, 3 (1 and 3 collide modulo 2, all modulo 1)}
+	slotVals := []c09val{c09nilv, c09v("{1,[e]}", ue(1, ev("e"))), c09v("{2,[e]}", ue(2, ev("e"))), c09v("{3,[f,e]}", ue(3, ev("f"), ev("e")))}
+	lists := &c09cases{}
+	maxLen := 5
+	for n := 0; n <= maxLen; n++ {
+		idx := make([]int, n)
+		for {
+			var items [][]byte
+			var lab []string
+			for _, k := range idx {
+				items = append(items, slotVals[k].enc)
+				lab = append(lab, slotVals[k].label)
+			}
+			lists.add(pp(4, c09arr(items...)), "push/pull{Events=["+strings.Join(lab, ",")+"]}")
+			k := n - 1
+			for k >= 0 {
+				idx[k]++
+				if idx[k] < len(slotVals) {
+					break
+				}
+				idx[k] = 0
+				k--
+			}
+			if k < 0 {
+				break
+			}
+		}
+	}
+	// lists just beyond the default ring of 512: nil entries with one or two real slots at and after the local length
+	long := func(n int, at ...int) []byte {
+		items := make([][]byte, n)
+		for i := range items {
+			items[i] = c09nil()
+		}
+		for j, p := range at {
+			items[p] = ue(uint64(600+j), ev("e"))
+		}
+		return pp(700, c09arr(items...))
+	}
+	for _, c := range []struct {
+		n  int
+		at []int
+	}{{511, []int{510}}, {512, []int{511}}, {513, []int{512}}, {513, []int{0, 512}}, {514, []int{513}}, {1024, []int{1023}}, {1025, []int{512, 1024}}} {
+		lists.add(long(c.n, c.at...), fmt.Sprintf("push/pull{Events=%d entries, non-nil at %v}", c.n, c.at))
+	}
+	entries := []string{"MergeRemoteState(join=false)", "MergeRemoteState(join=false)[buffers=1]", "MergeRemoteState(join=false)[buffers=2]", "MergeRemoteState(join=true)[buffers=1]", "MergeRemoteState(join=true)[buffers=2]"}
+	if th {
+		entries = append(entries, "MergeRemoteState(join=true)")
+	}
+	for _, entry := range entries {
+		r.cases("push/pull event lists longer than the local ring @ "+entry, entry, lists)
+	}
+
+	// sequences of user events and queries whose Lamport times collide modulo the ring
+	var alpha []c09val
+	for _, lt := range []uint64{0, 1, 2, 3, 5, math.MaxUint64} {
+		alpha = append(alpha, c09v(fmt.Sprintf("event(%d,e)", lt), serf.VEncode(serf.VMsgUserEvent, &serf.VMessageUserEvent{LTime: serf.LamportTime(lt), Name: "e", Payload: []byte("p")})))
+	}
+	alpha = append(alpha, c09v("event(1,f)", serf.VEncode(serf.VMsgUserEvent, &serf.VMessageUserEvent{LTime: 1, Name: "f"})))
+	for _, lt := range []uint64{0, 1, 2, 3, math.MaxUint64} {
+		alpha = append(alpha, c09v(fmt.Sprintf("query(%d,id5)", lt), serf.VEncode(serf.VMsgQuery, &serf.VMessageQuery{LTime: serf.LamportTime(lt), ID: 5, Addr: []byte{10, 0, 0, 2}, Port: 7946, SourceNode: "b", Flags: serf.VQueryFlagAck, Timeout: time.Second, Name: "q"})))
+	}
+	alpha = append(alpha, c09v("query(1,id6)", serf.VEncode(serf.VMsgQuery, &serf.VMessageQuery{LTime: 1, ID: 6, Addr: []byte{10, 0, 0, 2}, Port: 7946, SourceNode: "b", Name: "q"})))
+	seqs := &c09cases{}
+	depth := 3
+	for n := 1; n <= depth; n++ {
+		idx := make([]int, n)
+		for {
+			var ms [][]byte
+			var lab []string
+			for _, k := range idx {
+				ms = append(ms, alpha[k].enc)
+				lab = append(lab, alpha[k].label)
+			}
+			seqs.add(c09joinSeq(ms...), "sequence "+strings.Join(lab, " "))
+			k := n - 1
+			for k >= 0 {
+				idx[k]++
+				if idx[k] < len(alpha) {
+					break
+				}
+				idx[k] = 0
+				k--
+			}
+			if k < 0 {
+				break
+			}
+		}
+	}
+	for _, buf := range []int{1, 2} {
+		entry := fmt.Sprintf("NotifyMsg sequence[buffers=%d]", buf)
+		r.cases("message sequences colliding modulo the ring @ "+entry, entry, seqs)
+	}
+
+	// the field products of the ring-indexed kinds on the tiny rings
+	for _, buf := range []int{1, 2} {
+		entry := fmt.Sprintf("NotifyMsg[buffers=%d]", buf)
+		r.cases("fields user event @ "+entry, entry, c09build(T(serf.VMsgUserEvent), []c09field{
+			{"LTime", c09uintD(c09v("2", c09uint(2)), c09v("3", c09uint(3)))}, {"Name", c09strD("ev")}, {"Payload", c09pick(c09bytesD(), "absent", "1-byte", "wrong-type:uint")}, {"CC", c09pick(c09boolD(), "absent", "true")}}, false, nil, "user-event"))
+		r.cases("fields query: ring-relevant scalars @ "+entry, entry, c09build(T(serf.VMsgQuery), c09queryFields(map[string][]c09val{
+			"LTime": c09uintD(c09v("2", c09uint(2)), c09v("3", c09uint(3))),
+			"ID":    c09uintD(c09v("2^32 (overflows)", c09uint(1<<32))),
+			"Flags": {c09v("ack", c09uint(1)), c09absent},
+			"Name":  {c09v(`"q"`, c09str("q")), c09v("_serf_ping", c09str("_serf_ping"))},
+		}), false, nil, "query"))
 	}
 }
 
